@@ -1,89 +1,9 @@
 ----------------------------- MODULE TraceLookup -----------------------------
-(***************************************************************************)
-(* Trace validation of bank-code <-> BIC lookups (C12) against the frozen  *)
-(* bank list, and of model registries replayed into the library.           *)
-(***************************************************************************)
-EXTENDS RealBanks
+(* Trace specification: one step per recorded event, total verdicts (operators in JudgeLookup). *)
+EXTENDS JudgeLookup
 
 Trace == JsonDeserialize(IOEnv.VERIF_TRACE)
 VARIABLE l
-
-\* one (cc, code) query answered by the library: q.cands / q.choice are
-\*   [k |-> "ok", v |-> ...] or [k |-> "exc", cls |-> ..., lib |-> ...]
-QueryOutcome(q, banks, idx) ==
-    LET M == Sel(banks, idx, q.cc, q.code)
-    IN  IF ~BicsUsable(banks, M) THEN "ok"          \* data defect: C17 reports it
-        ELSE IF M = {}
-        THEN IF q.cands.k # "exc" \/ q.choice.k # "exc" THEN "unlisted-pair-did-not-raise"
-             ELSE IF q.cands.cls # "InvalidBankCode" \/ q.choice.cls # "InvalidBankCode"
-                  THEN "unlisted-pair-raised-other-than-InvalidBankCode"
-             ELSE "ok"
-        ELSE IF q.cands.k = "exc" THEN "listed-pair-raised"
-        ELSE IF ~CandidatesOK(q.cands.v, banks, M) THEN "candidates-differ-from-registry"
-        ELSE IF q.cands.v = <<>>
-             THEN (IF q.choice.k = "ok" THEN "choice-without-candidates"
-                   ELSE IF ~q.choice.lib THEN "non-library-exception" ELSE "ok")
-        ELSE IF q.choice.k = "exc" THEN "choice-raised-although-candidates-exist"
-        ELSE IF ~SelectOK(q.choice.v, q.cands.v) THEN "wrong-choice"
-        ELSE IF \E j \in 1..Len(q.inv) : q.code \notin {q.inv[j].dom[n] : n \in 1..Len(q.inv[j].dom)}
-             THEN "candidate-does-not-list-the-bank-code"
-        ELSE IF \E j \in 1..Len(q.inv) : ~q.inv[j].exists THEN "candidate-does-not-exist"
-        ELSE "ok"
-
-LookupOutcome(e) ==
-    IF e.out.k = "exc" THEN "probe-raised"
-    ELSE QueryOutcome([cc |-> e.cc, code |-> e.code, cands |-> e.out.cands, choice |-> e.out.choice,
-                       inv |-> e.out.inv], Banks, IdxOf(e.cc))
-
-ReverseOutcome(e) ==
-    LET S == SelBic(Banks, AllIdx, Clean(e.bic))     \* a BIC object holds the clean form of its text
-    IN  IF e.out.k = "exc" THEN "reverse-lookup-raised"
-        ELSE IF e.out.exists # (S # {}) THEN "exists-differs"
-        ELSE IF ~SortedSeqOK(e.out.dom, {Banks[i].code : i \in S}) THEN "domestic-bank-codes-differ"
-        ELSE IF {e.out.names[j] : j \in 1..Len(e.out.names)} # {Banks[i].name : i \in S} THEN "bank-names-differ"
-        ELSE IF {e.out.shorts[j] : j \in 1..Len(e.out.shorts)} # {Banks[i].short : i \in S} THEN "short-names-differ"
-        ELSE "ok"
-
-\* the bank-identifying key of a clean IBAN text: its lookup components joined
-RECURSIVE JoinComponents(_, _, _)
-JoinComponents(s, names, i) ==
-    IF i > Len(names) THEN <<>> ELSE Component(Table, s, names[i]) \o JoinComponents(s, names, i + 1)
-BankKey(s) == JoinComponents(s, Table[CountryKey(s)].lookup, 1)
-
-IbanBankOutcome(e) ==
-    LET s == Clean(e.t)
-        o == e.out
-    IN  IF o.k = "exc" THEN (IF o.lib /\ ~Known(Table, s) THEN "ok" ELSE "bank-of-iban-raised")
-        ELSE IF ~Known(Table, s) THEN "ok"
-        ELSE LET cc == CountryOf(s)
-                 M == Sel(Banks, IdxOf(cc), cc, BankKey(s))
-                 cands == CandidatesImpl(Banks, M)
-             IN  IF ~BicsUsable(Banks, M) THEN "ok"
-                 ELSE IF M = {} THEN (IF o.bic.z /\ o.name.z /\ o.short.z /\ o.bankz THEN "ok"
-                                      ELSE "unlisted-bank-not-None")
-                 ELSE IF o.bankz \/ o.name.z \/ o.short.z THEN "listed-bank-reported-None"
-                 ELSE IF ~\E i \in M : Banks[i].name = o.name.s /\ Banks[i].short = o.short.s
-                      THEN "bank-names-not-from-the-registry-entry"
-                 ELSE IF o.bank_key # BankKey(s) THEN "bank-entry-of-another-key"
-                 ELSE IF o.entry_name.s # o.name.s \/ o.entry_short.s # o.short.s \/ ~o.again_same
-                      THEN "bank-names-differ-from-the-bank-entry"
-                 ELSE IF cands = <<>> THEN (IF o.bic.z THEN "ok" ELSE "bic-without-candidates")
-                 ELSE IF o.bic.z THEN "bic-None-although-candidates-exist"
-                 ELSE IF \E j \in 1..Len(cands) : Len(cands[j]) = 8
-                      THEN (IF Len(o.bic.c) = 8 /\ \E j \in 1..Len(cands) : cands[j] = o.bic.c THEN "ok"
-                            ELSE "wrong-choice")
-                 ELSE IF ~\E j \in 1..Len(cands) : cands[j] = o.bic.c THEN "wrong-choice"
-                 ELSE IF (\E j \in 1..Len(cands) : IsXXX(cands[j])) /\ ~IsXXX(o.bic.c) THEN "wrong-choice"
-                 ELSE "ok"
-
-\* a model registry replayed into the library: e.banks (BankRec list), e.out.answers
-RECURSIVE FirstBadQuery(_, _, _)
-FirstBadQuery(qs, banks, i) ==
-    IF i > Len(qs) THEN "ok"
-    ELSE LET v == QueryOutcome(qs[i], banks, 1..Len(banks))
-         IN  IF v # "ok" THEN v ELSE FirstBadQuery(qs, banks, i + 1)
-ModelOutcome(e) ==
-    IF e.out.k = "exc" THEN "probe-raised" ELSE FirstBadQuery(e.out.answers, e.banks, 1)
 
 Verdict(e) ==
     CASE e.op = "bic.lookup" -> LookupOutcome(e)
